@@ -54,6 +54,8 @@ func main() {
 		count, err = drive.LockingRandom(*out, *seed, *n, *depth, drive.LockingOpts{PowerReduction: *pr, MaxVals: *maxVals, NVals: 5, Mode: *mode})
 	case "relayer":
 		count, err = drive.RelayerRandom(*out, *seed, *n, *depth, *period, *acceptTimeout)
+	case "system":
+		count, err = drive.SystemRandom(*out, *seed, *n, *depth, *mode)
 	case "voted":
 		count, err = drive.VotedReplay(*cases, *out, *seed, *inst)
 	default:
